@@ -1,5 +1,6 @@
 """C07 I/O proportionality: observed (offset, length) range reads of every call vs the set of disk
 blocks the O-SPEC block map says the request needs."""
+import os
 import random
 
 import numpy as np
@@ -52,6 +53,8 @@ def cases(tier, seed):
             d = files.wspec_desc(rng, (nI, nX, rng.randint(5, 40)), rate, bs, version=[0, 2, 9], holes=holes,
                                  il=[rng.choice([1, 5]), 1], narr=3)
             out.append({'id': 'wi:%s:%s:%d' % (rate, 'x'.join(map(str, bs)), rep), 'file': d, 'nops': 30, 'cost': 1})
+    # a file of a few megabytes for the OS-level monitor (what the process reads from the operating system must scale with the call, not with the file)
+    out.append({'id': 'w3:oslevel', 'file': files.wspec_desc(rng, (96, 100, 300), 4, (4, 4, 512), narr=1, version=[0, 2, 9], valkind='smooth'), 'nops': 24, 'cost': 6})
     # wider cubes: the number of 4x4 trace columns a diagonal crosses (5, 9, 10, 17, 20 here) decides how many chunks the reader must hold
     for j, (nI, nX) in enumerate([(19, 18), (36, 37), (40, 43), (68, 66), (17, 80)] if tier == 'quick' else [(19, 18), (36, 37), (40, 43), (68, 66), (17, 80), (85, 88), (33, 35), (20, 20)]):
         d = files.wspec_desc(rng, (nI, nX, rng.choice([5, 9])), 8, (4, 4, 256), narr=1, version=[0, 2, 9])
@@ -395,6 +398,42 @@ def run_case(case, ctx):
                 bad.append({'sig': 'backend:request-multiset-differs', 'detail': 'local vs blob differ in phase %s preload=%s'
                             % (phase, preload)})
     multi_block = any(g >= 2 for g in sp.bgrid)
+    # ---- below the file object: a reader the library opens itself from a path.  What the process asks the operating system for
+    # (rchar of /proc/self/io) during a cold call must stay within what the same call requests from a counting handle, each request
+    # rounded up to one default I/O buffer (the buffered reader's own granularity) - not a multiple of it
+    import io as _io
+
+    def rchar():
+        with open('/proc/self/io') as f_:
+            return int(f_.read().split('rchar:')[1].split()[0])
+    if len(sp.raw) >= 150_000 and os.path.exists('/proc/self/io'):
+        for op in [o for o in ops if o[0] not in ('read_volume',)][:8]:
+            h, r = open_reader('local', False)
+            try:
+                mark = len(h.log)
+                getattr(r, op[0])(*op[1])
+                reqs = h.log[mark:]
+            except Exception:  # noqa
+                reqs = None
+            _clear(r)
+            h.close()
+            if not reqs:
+                continue
+            r2 = SgzReader(path)
+            try:
+                a0 = rchar()
+                getattr(r2, op[0])(*op[1])
+                a1 = rchar()
+            finally:
+                _clear(r2)
+                r2.close()
+            bound = sum(max(n_, _io.DEFAULT_BUFFER_SIZE) for _, n_, _g in reqs) + 2 * _io.DEFAULT_BUFFER_SIZE
+            counters['os_level_calls'] = counters.get('os_level_calls', 0) + 1
+            if a1 - a0 > bound:
+                bad.append({'sig': 'os-level:%s:reads-far-beyond-what-the-call-requests' % op[0],
+                            'detail': '%s%s on a reader opened by path: the process read %d bytes from the operating system; the call requests %d bytes in %d range(s) (bound with one %d-byte buffer per request: %d)'
+                                      % (op[0], op[1], a1 - a0, sum(n_ for _, n_, _g in reqs), len(reqs), _io.DEFAULT_BUFFER_SIZE, bound)})
+                break
     return {'violations': bad, 'counters': dict(counters, calls_checked=ncalls), 'strata': sorted(strata),
             'key': '%s|%s|%s|%s' % (case['id'].split(':')[0], sp.rate, sp.bs, sp.shape),
             'nontrivial': multi_block and ncalls >= 30}
